@@ -199,6 +199,10 @@ def gen_scenario(rng, force=None):
         decl = rng.sample(EXT_CODES, rng.choice([0, 1, 2]))
         if rng.random() < 0.1:
             decl.append(rng.choice(UNKNOWN))
+        if rng.random() < 0.25:
+            # an external code that collides with a built-in code (enabled or not): it counts as known AND enabled all the same
+            decl.append(rng.choice(KNOWN_NOT_ENABLED + ["no-debugger", "ban-unused-ignore"]))
+            decl = list(dict.fromkeys(decl))
     # file body
     if rng.random() < 0.15:
         L.emit("#!/usr/bin/env -S deno run"); L.newline()
